@@ -3,7 +3,7 @@ from fractions import Fraction as Fr
 
 from engine import loader
 from engine.runner import Acc
-from engine.util import call, chunks, ts_dec, ts_pair
+from engine.util import ca_for, call, chunks, ts_dec, ts_pair
 from spec import cpr as C
 from spec import cprsets as S
 from spec import frames as F
@@ -78,8 +78,8 @@ def make(latA, lonA, disp, tc, first_newer, alt12=0x5A3, hdr=0):
     e0 = C.encode(latA, lonA, 0)
     e1 = C.encode(latB, lonB, 1)
     aa = [0x406B90, 0xABCDEF, 0x000001][hdr % 3]
-    m0 = F.es(C.me_airborne(tc, alt12, 0, e0["yz"], e0["xz"], ss=hdr % 4, saf=hdr % 2, t=(hdr // 2) % 2), aa, 5, 17 + hdr % 2)
-    m1 = F.es(C.me_airborne(partner_tc(tc, hdr % 4), alt12, 1, e1["yz"], e1["xz"], ss=(hdr + 1) % 4, saf=0, t=hdr % 2), aa, 5, 17 + hdr % 2)
+    m0 = F.es(C.me_airborne(tc, alt12, 0, e0["yz"], e0["xz"], ss=hdr % 4, saf=hdr % 2, t=(hdr // 2) % 2), aa, ca_for(17 + hdr % 2, hdr // 2), 17 + hdr % 2)
+    m1 = F.es(C.me_airborne(partner_tc(tc, hdr % 4), alt12, 1, e1["yz"], e1["xz"], ss=(hdr + 1) % 4, saf=0, t=hdr % 2), aa, ca_for(17 + hdr % 2, hdr // 2), 17 + hdr % 2)
     return m0, m1, e0, e1
 
 
